@@ -68,7 +68,7 @@ func VerifC08_Ephemeral() {
 		o := verifOpts()
 		o.MemQueueSize = 1
 		n := verifShellNSQD(o)
-		verifrt.Stub("(*github.com/nsqio/nsq/nsqd.NSQD).Notify", verifNotifyNop)
+		verifrt.StubNative("(*github.com/nsqio/nsq/nsqd.NSQD).Notify", verifNotifyNop)
 		calls := 0
 		c := NewChannel("t", "ch#ephemeral", n, func(*Channel) { calls++ })
 		_, isDummy := c.backend.(*dummyBackendQueue)
